@@ -376,6 +376,60 @@ pub fn run(ctx: &Ctx) -> Report {
         acc.into_report(&mut rep, "fnv_all_strings_over_7_byte_alphabet");
     }
 
+    // ---- FNV: bulk (slice / += slice / += array / iterator) forms over structured 16- and 32-byte blocks
+    //      (block-wise optimisations: sparse, half-zero, alternating data) and iterators of every length 1..=600
+    {
+        let halves: Vec<[u8; 8]> = {
+            let mut v: Vec<[u8; 8]> = vec![[0; 8], [0xff; 8], [0xaa; 8], [0x55; 8], *b"ABABABAB", *b"01010101", [1, 0, 0, 0, 0, 0, 0, 0], [0, 0, 0, 0, 0, 0, 0, 0x80]];
+            for i in 0..8 {
+                let mut h = [0u8; 8];
+                h[i] = 0x41 + i as u8;
+                v.push(h);
+            }
+            v
+        };
+        let nh = halves.len();
+        let acc = par_shards(nh * nh, |i, acc| {
+            let mut block = halves[i / nh].to_vec();
+            block.extend_from_slice(&halves[i % nh]);
+            for prefix in [0usize, 1, 15] {
+                for reps in [1usize, 2, 3] {
+                    let mut s = vec![0x33u8; prefix];
+                    for _ in 0..reps {
+                        s.extend_from_slice(&block);
+                    }
+                    s.push(0x77);
+                    acc.evaluations += 1;
+                    acc.nontrivial += 1;
+                    if let Err(e) = fnv_replay(&s) {
+                        acc.violation("fnv blocks".into(), e, case("fnv", &s));
+                    }
+                    // the array form of the block itself
+                    let mut a = PartialFNVHash::new();
+                    let arr: [u8; 16] = block.clone().try_into().unwrap();
+                    a += &arr;
+                    if a.value() != refmodel::fnv6(&block) {
+                        acc.violation("fnv array16".into(), format!("+= &[u8; 16] of {} gives {}", hex(&block), a.value()), case("fnv", &block));
+                    }
+                }
+            }
+        });
+        acc.into_report(&mut rep, "fnv_bulk_forms_over_structured_16_byte_blocks");
+        let acc = par_shards(600, |n, acc| {
+            let n = n + 1;
+            let data: Vec<u8> = (0..n).map(|k| (k * 37 + k / 7) as u8).collect();
+            acc.evaluations += 2;
+            acc.nontrivial += 2;
+            if let Err(e) = fnv_replay(&data) {
+                acc.violation("fnv long iterator".into(), e, case("fnv", &data));
+            }
+            if let Err(e) = roll_replay(&data) {
+                acc.violation("roll long iterator".into(), e, case("roll", &data));
+            }
+        });
+        acc.into_report(&mut rep, "all_forms_over_strings_of_every_length_1_to_600");
+    }
+
     // ---- rolling hash: closure over an alphabet
     {
         let sigma: Vec<u8> = ctx.tier.pick(vec![0x00, 0x01, 0x7f, 0x80, 0xff], vec![0x00, 0x01, 0x02, 0x7f, 0x80, 0xfe, 0xff]);
